@@ -651,7 +651,7 @@ Qed.
 Definition with_multi (b : bool) (i : input) : input :=
   {| i_impl := i_impl i; i_render := i_render i; i_resp := i_resp i;
      i_err := match i_err i with
-              | Some e => Some {| e_status := e_status e; e_multi := b; e_msg := e_msg e |}
+              | Some e => Some {| e_status := e_status e; e_multi := b; e_msg := e_msg e; e_buried := e_buried e |}
               | None => None end;
      i_ttl := i_ttl i; i_ctx_done := i_ctx_done i; i_errf := i_errf i; i_ver := i_ver i;
      i_ctx_errs := i_ctx_errs i |}.
@@ -662,7 +662,7 @@ Definition with_impl (im : impl) (i : input) : input :=
 
 Lemma multi_irrelevant b i : handler (with_multi b i) = handler i.
 Proof.
-  destruct i as [im rd rs er ttl cd ef ver ce]. destruct er as [[es em msg]|]; reflexivity.
+  destruct i as [im rd rs er ttl cd ef ver ce]. destruct er as [[es em msg eb]|]; reflexivity.
 Qed.
 
 Definition with_ctx_errs (l : list ctx_err) (i : input) : input :=
@@ -671,6 +671,29 @@ Definition with_ctx_errs (l : list ctx_err) (i : input) : input :=
      i_ctx_errs := l |}.
 Lemma ctx_errs_irrelevant l i : handler (with_ctx_errs l i) = handler i.
 Proof. destruct i as [im rd rs er ttl cd ef ver ce]. reflexivity. Qed.
+
+Definition with_buried (b : option Z) (i : input) : input :=
+  {| i_impl := i_impl i; i_render := i_render i; i_resp := i_resp i;
+     i_err := match i_err i with
+              | Some e => Some {| e_status := e_status e; e_multi := e_multi e; e_msg := e_msg e; e_buried := b |}
+              | None => None end;
+     i_ttl := i_ttl i; i_ctx_done := i_ctx_done i; i_errf := i_errf i; i_ver := i_ver i;
+     i_ctx_errs := i_ctx_errs i |}.
+Lemma buried_irrelevant b i : handler (with_buried b i) = handler i.
+Proof. destruct i as [im rd rs er ttl cd ef ver ce]. destruct er as [[es em msg eb]|]; reflexivity. Qed.
+
+(* an error that only wraps a status error is answered with the translator's verdict *)
+Lemma wrapped_status i e n :
+  i_resp i = None -> i_err i = Some e -> e_status e = None -> e_buried e = Some n ->
+  valid_code (i_errf i) = true ->
+  exists o, handler i = Reply o /\ o_status o = i_errf i.
+Proof.
+  intros Hr He Hs _ Hv.
+  assert (He' : eff_err i = Some e) by (unfold eff_err; rewrite He; reflexivity).
+  assert (E : err_status i e = i_errf i) by (unfold err_status; rewrite Hs; reflexivity).
+  destruct (error_status i e Hr He') as (o & H & S & _); [rewrite E; exact Hv|].
+  exists o. rewrite <- E. auto.
+Qed.
 
 Lemma impls_agree i im1 im2 o1 o2 :
   meta_disjoint i ->
